@@ -448,6 +448,15 @@ def run1(scn):
         for (t, ch, what) in sa.proto[:2]:
             V("protocol_slave_side", "slave." + ch, "cycle %d: %s" % (t, what), t)
         nbs = len(sbus[1].w.strb)
+        if fam == "axil_cdc":
+            # the address channels are streams: the whole beat (address and AxPROT) arrives, in order
+            for ch, sent in (("aw", [o for o in scn["ops"] if o["kind"] == "w"]), ("ar", [o for o in scn["ops"] if o["kind"] == "r"])):
+                for k, (got, o) in enumerate(zip(sa.prot_log[ch], sent)):
+                    checks += 1
+                    if got != o.get("prot", 0):
+                        V("payload_field_lost", "slave.%s.prot" % ch, "%s beat #%d (addr %#x) sent with prot=%d arrives with prot=%d"
+                          % (ch, k, o["addr"], o.get("prot", 0), got))
+                        break
         if not viols:
             for b_, val in ref.items():
                 w_ = sa._rdata(b_ - (b_ % nbs))
